@@ -261,6 +261,8 @@ def report_abort(M, ab):
     if M.is_hyp():
         if ab.kind != 'alignment':
             raise Skip('Hyp-mode fault syndromes')
+        if fcse(M, ab.addr & M32) != (ab.addr & M32):
+            raise Skip('FCSE and Hyp mode')          # (whether the PL2 regime sees FCSE-modified addresses is not something this reference takes a position on)
         # Data Abort taken from Hyp mode to Hyp mode: HSR.EC = 0x25, ISS = WnR : DFSC (alignment = 100001); HDFAR = address; DFSR / DFAR untouched
         if not M.hooked:
             raise NotImpl('TLBLookupCameFromCacheMaintenance')
